@@ -83,6 +83,16 @@ def tracker(pid, n_quick=160, n_thorough=3000):
 for _p in ("C01", "C02", "C04", "C09", "C16"):
     tracker(_p)
 
+SPECS["C01"].assumptions = SPECS["C01"].assumptions + [
+    "which sshd PID a login carries is part of C01's obligations: C01_login_pid_is_record_first_column / C01_tracker_login_pid_is_record_first_column / "
+    "C01_framed_record_login (Proofs/RecordLogin.v) compose the translations regenerated from SyslogIngester.Process / ParseSyslogMessage (Gen/PureFuncs.v) and "
+    "ProcessSshdLogEntry (Gen/EntryMetrics.v) with the sshd model: for every record, a forwarded login carries strconv.Atoi of the record's first column; the "
+    "abstraction of a forwarded login to the correlator's login is Model/PipelineSshd.v's abs_login",
+    "daemon stage, hostile client-chosen text (harness/daemon/hostile.go): user names of failure lines and key ids of certificate logins that look like an accepted-login "
+    "record of another session's sshd process (syslog tags, PID column, timestamp + host prefixes, CR and other would-be record breaks), before / after that session's "
+    "LOGIN record and genuine login; key ids stay inside C06's no_ssh_frag domain; the identity oracle is unchanged (a forged name is recorded as a name)",
+]
+
 SSHD_ASSUME = [
     "bytes, not runes: every class of the generated regexes contains all or no non-ASCII runes (go2v refuses others), so byte-level matching equals Go's rune-level matching",
     "the model's matcher is the backtracking leftmost-first matcher; that RE2 returns the same match for these flat patterns is assumed and exercised by the correspondence",
